@@ -229,7 +229,7 @@ impl MetaManipulationBroker for LocalBroker {
             let (i, f) = self.faults.next();
             let desc = brokerdrv::slot_range_json(&meta.slot_range);
             if f == Fault::Drop {
-                self.log(i, &f, "commit_migration", desc, json!("lost"));
+                self.log(i, &f, "commit_migration", desc, json!({"first": "lost", "second": ""}));
                 return Err(MetaManipulationBrokerError::RequestFailed);
             }
             let mut r = self.svc().commit_migration(meta.clone()).await;
